@@ -240,6 +240,12 @@ def decompress(encoding: Encoding, data: bytes, *, max_output_size: int | None =
     pass through rather than 415.
     """
     if encoding is Encoding.IDENTITY:
+        # No transform, but the output cap is the caller's bound on what it is
+        # handed back and applies to every coding alike.
+        if max_output_size is not None and len(data) > max_output_size:
+            raise DecompressionLimitExceeded(
+                f"identity body of {len(data)} bytes exceeds max_output_size={max_output_size}"
+            )
         return data
     if encoding is Encoding.ZSTD:
         return _decompress_body_zstd(data, max_output_size=max_output_size)
